@@ -20,7 +20,8 @@ RULE = ("raw inputs assembled from zoo meshes (point clouds, polylines, polygon 
         "cells plus explicitly given faces) with declared edges (face sides and chords, given high-first), invalid edges (self-loops, "
         "out-of-range, negative) and edge attributes (sparse/dense x bool/int/float x arity 1/3, unique payload per declared edge); "
         "three construction routes (raw containers, from_arrays, file) x index rows as list/tuple/numpy row/numpy ints; completion "
-        "switches on/off; non-trivial = at least one declared edge and one invalid element, or a cell mesh; distinct = input hash")
+        "switches on/off; non-trivial = at least one declared edge and one invalid element, or a cell mesh; distinct = input hash"
+        "; variants: padded faces, flat inputs as 1-/2-column arrays through from_arrays, caller-created hard_edges attribute, rejected first construction then retry, early reads of the raw container, file read as raw data then extended")
 REQUIRED = {"norm": 3000, "idem": 200, "rows": 100, "corners": 300}
 CASE_TIMEOUT = {"quick": 30.0, "thorough": 600.0}
 ASSUMPTIONS = ["a construction retried after a rejected first attempt is judged only when the rejected (malformed) edge row was not a side of a face",
